@@ -9,7 +9,8 @@
 (***************************************************************************)
 EXTENDS WireUniverse, Json
 
-CONSTANT OptMode      \* "default": only the empty option set; "cover": OptMasks
+CONSTANTS OptMode,     \* "default": only the empty option set; "cover": OptMasks
+          ValMode      \* "all": every value of the root; "first": one value (schema x option universes)
 
 VARIABLES sid, vi, oi
 
@@ -30,7 +31,7 @@ Next == \/ /\ sid = 0
            /\ sid' \in 1..NSchemas
            /\ UNCHANGED <<vi, oi>>
         \/ /\ sid > 0 /\ vi = 0
-           /\ vi' \in 1..Len(Vals(S, RootT))
+           /\ vi' \in 1..(IF ValMode = "first" THEN 1 ELSE Len(Vals(S, RootT)))
            /\ oi' \in 1..NOpts
            /\ UNCHANGED sid
 
